@@ -171,11 +171,13 @@ Example C02_cyclic_outcome :
   fst (run_program 100 ex_cyclic s0_) = OErr (EHostCrash (s_ "stack overflow in String")).
 Proof. vm_compute. reflexivity. Qed.
 
-Theorem C02_soundness_full_refuted_early_call :
+(* Since /repo 9183517 a function that assigns a global before its declaration has run ends with the
+   documented "variable has not been set yet" panic (before: a host panic in scope.update). *)
+Theorem C02_early_call_is_an_evy_panic :
   wt_program ex_early_call = true /\
-  fst (run_program 100 ex_early_call s0_) = OErr (EHostCrash (s_ "update of unknown variable")).
+  fst (run_program 100 ex_early_call s0_) = OErr (EPanic PkVarNotSet).
 Proof. vm_compute. split; reflexivity. Qed.
-Print Assumptions C02_soundness_full_refuted_early_call.
+Print Assumptions C02_early_call_is_an_evy_panic.
 
 Theorem C02_not_soundness_full : ~ soundness_full.
 Proof.
